@@ -43,7 +43,8 @@ KINDS = ["dangling", "loop", "fifo", "socket", "dotdot", "backslash", "stat-ENOE
          "zip-badlinks", "gmap-vanish", "gmap-stat-EACCES", "gmap-stat-ENOENT",
          "gmapname-socket", "gmapname-fifo", "gmapname-dir", "gmapname-dangling", "gmapname-loop",
          "zip-damaged", "zip-oddmembers", "pyg-broken", "pyg-nomain", "pyg-raises", "tal-notype", "gmap-badport",
-         "dot-dotdot", "dot-backslash"]
+         "dot-dotdot", "dot-backslash",
+         "cap-is-fifo", "cap-is-socket", "cap-is-file", "cap-is-loop", "cap-is-link-to-file"]
 # kinds that need the ZIP handler in the chain / a gophermap in the directory
 ZIP_KINDS = ("zipcache-fifo", "zipcache-socket", "zip-emptylink", "zip-badlinks", "zip-damaged", "zip-oddmembers",
              "pyg-broken", "pyg-nomain", "pyg-raises", "tal-notype")
@@ -134,6 +135,21 @@ def _bad_entry(rng, kind, pre, i):
             ent.append({"p": pre + name, "k": "symlink", "to": "nowhere-cache"})
         else:
             ent.append({"p": pre + name, "k": "dir", "age": age})
+    elif kind.startswith("cap-is-"):
+        # what carries the name of the UMN .cap directory is not a directory
+        name = ".cap"
+        ent.append({"p": pre + base + ".txt", "k": "file", "d": "next to a .cap that is no directory\n", "healthy": True})
+        if kind == "cap-is-fifo":
+            ent.append({"p": pre + name, "k": "fifo"})
+        elif kind == "cap-is-socket":
+            ent.append({"p": pre + name, "k": "socket"})
+        elif kind == "cap-is-file":
+            ent.append({"p": pre + name, "k": "file", "d": "Name=not a directory\n"})
+        elif kind == "cap-is-loop":
+            ent.append({"p": pre + name, "k": "symlink", "to": name})
+        else:
+            ent.append({"p": pre + base + ".txt.target", "k": "file", "d": "a regular file\n", "healthy": True})
+            ent.append({"p": pre + name, "k": "symlink", "to": base + ".txt.target"})
     elif kind.startswith("cap-"):
         # the UMN .cap/<name> sidecar of a healthy entry is a special file
         name = ".cap"
@@ -249,6 +265,9 @@ def gen(seed, index, tier):
     if sum(1 for k in kinds if k.startswith("gmapname-")) > 1 or (
             any(k.startswith("gmapname-") for k in kinds) and any(k in GMAP_KINDS for k in kinds)):
         kinds = [kinds[0]] + ["socket" if (k.startswith("gmapname-") or k in GMAP_KINDS) else k for k in kinds[1:]]
+    if any(e["p"].startswith(pre + ".cap") for e in dspec):
+        # the generated directory already has a real .cap directory
+        kinds = ["fifo" if k.startswith("cap-is-") else k for k in kinds]
     if sum(1 for k in kinds if k.startswith("cap-")) > 1:
         kinds = [kinds[0]] + ["socket" if k.startswith("cap-") else k for k in kinds[1:]]
     for j, k in enumerate(kinds):
@@ -308,7 +327,16 @@ def gen(seed, index, tier):
                 lines2.insert(rng.randrange(len(lines2) + 1),
                               "1Elsewhere\t%s\thost.example\t%s" % (b, rng.choice(["seventy", "+", "70.0", "7O"])))
             badspec.append({"p": pre + "gophermap", "k": "file", "d": "\n".join(lines2) + "\n"})
+    warm = False
+    WARMABLE = ("dangling", "loop", "fifo", "socket", "stat-EACCES", "stat-EIO", "stat-ELOOP", "stat-ENOENT",
+                "link-block-names-it")
+    if all(k in WARMABLE for k in kinds) and rng.random() < 0.35:
+        # the entries go bad AFTER a first listing has been served and cached (they were ordinary files then):
+        # the second request, inside the cache lifetime, must fare no worse
+        warm = True
+        kinds = list(kinds) + ["went-bad-after-caching"]
     return {
+        "warm": warm,
         "spec": base, "bad_spec": badspec, "bad": bad, "kinds": kinds, "faults": faults,
         "dir": dname, "proto": rng.choice(proto.LISTING_PROTOCOLS),
         "handlers": handlers,
@@ -339,7 +367,12 @@ def execute(sc, tape=None):
         root = os.path.join(base, "root")
         refroot = os.path.join(base, "ref")
         world.build(refroot, sc["spec"])
-        world.build(root, sc["spec"] + sc["bad_spec"])
+        if sc.get("warm"):
+            placeholders = [{"p": (sc["dir"] + "/" if sc["dir"] else "") + b, "k": "file", "d": "fine for now\n"}
+                            for b in sc["bad"]]
+            world.build(root, sc["spec"] + placeholders)
+        else:
+            world.build(root, sc["spec"] + sc["bad_spec"])
         sel = common.selector_of(sc["dir"])
         req, tls = proto.make_request(sc["proto"], sel)
         refout, _ = harness.one_shot(refroot, req, tls=tls, handlers=sc["handlers"],
@@ -353,6 +386,20 @@ def execute(sc, tape=None):
                              handlers=sc["handlers"])
         viol = None
         with run:
+            if sc.get("warm"):
+                c0 = run.client(req, tls=tls)
+                run.go()
+                for e in placeholders:
+                    os.unlink(os.path.join(root, e["p"]))
+                cachefiles = {}
+                for dp, dn, fn in os.walk(root):
+                    for n in fn:
+                        if n.startswith(".cache.pygopherd"):
+                            cachefiles[os.path.join(dp, n)] = simfs.real_lstat(os.path.join(dp, n)).st_mtime
+                world.build(root, sc["bad_spec"])
+                for cf_, mt_ in cachefiles.items():     # (build() stamps the whole tree: the caches keep their age)
+                    simfs.real_utime(cf_, (mt_, mt_))
+                run.count("entry_went_bad_after_listing_was_cached")
             for f in sc["faults"]:
                 run.fs.faults.append(simfs.Fault.from_json(dict(
                     {"cut": None, "cuts": None, "mode": None, "nth": 0, "after_listed": False}, **f)))
